@@ -12,9 +12,19 @@ def ms : Nat := 1000000
 def sleepProg (d : Nat) (ret : Nat) : List TStep :=
   List.replicate (d / 10) (.delay (10 * ms)) ++ (if d % 10 ≠ 0 then [.delay ((d % 10) * ms)] else []) ++ [.delay 0, .ret ret]
 
-def parseTask (i : Nat) (t : String) : List TStep :=
+/-- a receiver started at t₀: the hooked recv parks in 10 ms slices; the peer's byte arrives at `a` ms.
+If `a` is a slice boundary the retry at that boundary finds it, otherwise the readiness event of the
+turn at `a` makes the coroutine runnable for the next turn. Then it sleeps `d` ms. -/
+def recvThenSleep (a d step i : Nat) : List TStep :=
+  [.delay ((if a % 10 = 0 then a else a + step) * ms)] ++ sleepProg d i
+
+def parseTask (step i : Nat) (t : String) : List TStep :=
   let rest := (t.drop 1).toString.toNat?.getD 0
-  if t.startsWith "Z" then sleepProg rest i
+  if t.startsWith "V" then
+    match (t.drop 1).toString.splitOn "x" with
+    | [a, d] => recvThenSleep (a.toNat?.getD 0) (d.toNat?.getD 0) step i
+    | _ => [.ret i]
+  else if t.startsWith "Z" then sleepProg rest i
   else if t.startsWith "Y" then List.replicate rest .susp ++ [.ret i]
   else [.ret i]
 
@@ -48,7 +58,7 @@ def drive (body impl : String) : Verdict :=
   let tasks := tasksAt.map (·.1)
   let t0 := 1000000000
   let p0 : Pool := { maxSize := mx, now := t0 }
-  let pending := (tasksAt.zipIdx).map (fun ((t, tat), i) => (i, parseTask i t, tat))
+  let pending := (tasksAt.zipIdx).map (fun ((t, tat), i) => (i, parseTask step i t, tat))
   let (fin, pe) := simulate 400 p0 t0 step [] tasks.length pending
   let showFin := fun (l : List (Nat × Nat)) => joinWith "," ((List.range tasks.length).map (fun i =>
     match l.find? (·.1 == i) with | some e => s!"{i}:{e.2}" | none => s!"{i}:-"))
@@ -71,9 +81,23 @@ def drive (body impl : String) : Verdict :=
           | none => some s!"[never-finished] task {i} (sleep {d} ms) never finished"
         else none)
      else [])
-  { modelOut := mo, spec := [("C15", fails.isEmpty, joinWith " ; " fails)],
+  -- C14 on the implementation's output: nobody's sleep ends before its time (a sleep cannot begin before
+  -- the task was submitted, a receiver's not before its byte arrived)
+  let early : List String := (tasksAt.zipIdx).filterMap (fun ((t, tat), i) =>
+    let body := (t.drop 1).toString
+    let bound : Option Nat :=
+      if t.startsWith "Z" then some (tat + body.toNat?.getD 0)
+      else if t.startsWith "V" then (match body.splitOn "x" with
+        | [a, d] => some (a.toNat?.getD 0 + d.toNat?.getD 0)
+        | _ => none)
+      else none
+    match bound, (ifin.find? (·.1 == i)).bind (·.2) with
+    | some b, some f => if f < b then some s!"[slept-too-short] task {i} (`{t}`) finished at {f} ms, its sleep cannot have ended before {b} ms" else none
+    | _, _ => none)
+  { modelOut := mo, spec := [("C15", fails.isEmpty, joinWith " ; " fails), ("C14", early.isEmpty, joinWith " ; " early)],
     labels := [if tasks.length ≤ mx then "room-for-all" else "rounds"] ++
               (if tasksAt.any (·.2 > 0) then ["late-arrivals"] else []) ++
+              (if tasks.any (·.startsWith "V") then ["recv-then-sleep"] else []) ++
               (if tasks.any (·.startsWith "Y") then ["with-computing-tasks"] else []) ++
               (if tasks.any (fun t => t.startsWith "Z" && ((t.drop 1).toString.toNat?.getD 0) > 10) then ["multi-slice"] else ["single-slice"]) }
 end Oc.Driver.Sleepers
